@@ -25,6 +25,7 @@ void verif_yaml_word(int c, char *dst);
 #endif
 int verif_yaml_pos;                 /* events delivered so far */
 int verif_yaml_open_events;         /* events not yet deleted */
+int verif_yaml_choice_log[16] = {-1, -1, -1, -1, -1, -1, -1, -1, -1, -1, -1, -1, -1, -1, -1, -1};   /* shape mode: dictionary index per scalar event */
 #ifdef VERIF_YAML_SCRIPTED
 extern int verif_yaml_types[VERIF_YAML_LEN];
 extern const int verif_yaml_script_n;
@@ -115,6 +116,18 @@ int yaml_parser_parse(yaml_parser_t *parser, yaml_event_t *event) {
 		uint8_t c = ND_u8("yaml_scalar_choice");
 		int n = verif_yaml_dict_size();
 		__CPROVER_assume(c <= n);
+#ifdef VERIF_YAML_SHAPE_WORDS
+		/* the query may also fix the WORD of a scalar event (dictionary index; -1 = chosen by the solver): a parser state
+		 * machine whose state depends on the word read is only tractable with that word concrete */
+		{ extern const signed char verif_yaml_shape_word[];
+		  if (verif_yaml_shape_word[verif_yaml_pos] >= 0) c = (uint8_t)verif_yaml_shape_word[verif_yaml_pos]; }
+#endif
+#ifdef VERIF_YAML_DICT_ONLY
+		__CPROVER_assume(c < n);
+#endif
+#ifdef VERIF_YAML_SHAPE
+		if (verif_yaml_pos < 16) verif_yaml_choice_log[verif_yaml_pos] = c;
+#endif
 		char *s = malloc(VERIF_YAML_WORDMAX + 1);
 		if (c == n) {
 			s[0] = (char)ND_u8("yaml_c0"); s[1] = (char)ND_u8("yaml_c1"); s[2] = 0;
